@@ -4,11 +4,17 @@ package ctlog
 
 import (
 	"context"
+	"fmt"
+	"hash/fnv"
 	"io/fs"
 	"os"
 	"path/filepath"
+	"runtime"
 	"strconv"
+	"strings"
 	"sync"
+	"testing"
+	"testing/synctest"
 
 	"crawshaw.io/sqlite"
 	"crawshaw.io/sqlite/sqlitex"
@@ -107,7 +113,6 @@ func simTempDir() (string, func()) {
 
 func mkdirAll(d string) error { return os.MkdirAll(d, 0o755) }
 
-
 // simWantReal: about one case in ten is mirrored onto real stores (LocalBackend directory + SQLite lock database); VERIF_REAL=1 forces it.
 func simWantReal(draw int) bool {
 	if os.Getenv("VERIF_REAL") != "" {
@@ -118,7 +123,6 @@ func simWantReal(draw int) bool {
 	}
 	return draw == 5 // quick tier: rapid favours small values, so a middle value keeps this near one case in ten or below
 }
-
 
 // ---- large pre-built base (thorough tier): a log of 65 530 leaves, so that generated
 // histories cross the level-1 tile boundary at 65 536 and create level-2 tiles ----
@@ -164,10 +168,120 @@ func simBigBase(t simFataler) (*simSys, int) {
 	return simBig.base, simBig.next
 }
 
-
 func simEnvInt(name string, def int) int {
 	if v, err := strconv.Atoi(os.Getenv(name)); err == nil {
 		return v
 	}
 	return def
+}
+
+// simInBubble runs body inside a testing/synctest bubble: context deadlines (sequenceTimeout, strictTimeout) then run on
+// virtual time, which makes "stalls until the deadline" an affordable fault mode. rapid steers a case with panics, and
+// body runs on the bubble's goroutine, so a panic is carried over to the calling (rapid's) goroutine. rapid's shrinker
+// recognises "the same failure" by the traceback of the panic alone, so the relay re-panics from a source line chosen
+// by the original panic's call stack (and from a line of its own for rapid's "invalid data" signal): different
+// failures keep different tracebacks.
+func simInBubble(t *testing.T, body func()) {
+	var pv any
+	panicked := true
+	site := 0
+	synctest.Test(t, func(*testing.T) {
+		defer func() {
+			if panicked {
+				pv = recover()
+				pcs := make([]uintptr, 64)
+				pcs = pcs[:runtime.Callers(2, pcs)]
+				h := fnv.New32a()
+				frames := runtime.CallersFrames(pcs)
+				for {
+					f, more := frames.Next()
+					if strings.HasSuffix(f.Function, "simInBubble.func1") {
+						break
+					}
+					fmt.Fprintf(h, "%s:%d;", f.Function, f.Line)
+					if !more {
+						break
+					}
+				}
+				site = 1 + int(h.Sum32()%31)
+				if fmt.Sprintf("%T", pv) == "rapid.invalidData" {
+					site = 0
+				}
+			}
+		}()
+		simVirtualTime = os.Getenv("VERIF_NO_STALLS") == ""
+		defer func() { simVirtualTime = false }()
+		body()
+		panicked = false
+	})
+	if !panicked {
+		return
+	}
+	switch site {
+	case 0:
+		panic(pv)
+	case 1:
+		panic(pv)
+	case 2:
+		panic(pv)
+	case 3:
+		panic(pv)
+	case 4:
+		panic(pv)
+	case 5:
+		panic(pv)
+	case 6:
+		panic(pv)
+	case 7:
+		panic(pv)
+	case 8:
+		panic(pv)
+	case 9:
+		panic(pv)
+	case 10:
+		panic(pv)
+	case 11:
+		panic(pv)
+	case 12:
+		panic(pv)
+	case 13:
+		panic(pv)
+	case 14:
+		panic(pv)
+	case 15:
+		panic(pv)
+	case 16:
+		panic(pv)
+	case 17:
+		panic(pv)
+	case 18:
+		panic(pv)
+	case 19:
+		panic(pv)
+	case 20:
+		panic(pv)
+	case 21:
+		panic(pv)
+	case 22:
+		panic(pv)
+	case 23:
+		panic(pv)
+	case 24:
+		panic(pv)
+	case 25:
+		panic(pv)
+	case 26:
+		panic(pv)
+	case 27:
+		panic(pv)
+	case 28:
+		panic(pv)
+	case 29:
+		panic(pv)
+	case 30:
+		panic(pv)
+	case 31:
+		panic(pv)
+	}
+	panic(pv)
 }
